@@ -732,7 +732,7 @@ Lemma leaf_eqb_refl : forall a, leaf_eqb a a = true.
 Proof. induction a; cbn; try reflexivity; try (rewrite !String.eqb_refl; reflexivity); assumption. Qed.
 
 Definition agree_clauses (cls op : string) (ss : list spelling) : bool :=
-  supported tables cls ss && clause_single_algorithm cls op && clause_no_stub cls op && clause_not_coerced cls op.
+  supported tables cls ss && clause_single_algorithm cls op && clause_not_coerced cls op.
 
 Lemma spellings_agree_table :
   forallb (fun cls => forallb (fun os => implb (agree_clauses cls (fst os) (snd os)) (all_same_leaf tables cls (snd os)))
@@ -755,18 +755,18 @@ Proof. intros a b H Ha. subst. exact H. Qed.
 Lemma spellings_agree_partial_proof : forall cls op ss s1 s2,
   In cls classes -> In (op, ss) op_classes ->
   supported tables cls ss = true -> clause_single_algorithm cls op = true ->
-  clause_no_stub cls op = true -> clause_not_coerced cls op = true ->
+  clause_not_coerced cls op = true ->
   In s1 ss -> In s2 ss ->
   resolve tables false FUEL cls s1 = resolve tables false FUEL cls s2.
 Proof.
-  intros cls op ss s1 s2 Hc Ho Hs Ha Hb Hd H1 H2.
+  intros cls op ss s1 s2 Hc Ho Hs Ha Hd H1 H2.
   pose proof spellings_agree_table as T.
   pose proof (proj1 (forallb_forall _ _) T cls Hc) as T1.
   pose proof (proj1 (forallb_forall _ _) T1 (op, ss) Ho) as T2.
   apply (all_same_leaf_pair tables cls ss s1 s2); [|exact H1|exact H2].
   apply (implb_elim _ _ T2). unfold agree_clauses.
   change (fst (op, ss)) with op. change (snd (op, ss)) with ss.
-  rewrite Hs, Ha, Hb, Hd. reflexivity.
+  rewrite Hs, Ha, Hd. reflexivity.
 Qed.
 
 (* refutation witnesses, one per clause *)
@@ -780,12 +780,20 @@ Proof.
   split; [vm_compute; reflexivity|]. split; vm_compute; reflexivity.
 Qed.
 
-Lemma spellings_stub_refuted_proof :
-  exists op ss s1 s2, In (op, ss) op_classes /\ In s1 ss /\ In s2 ss /\
-    resolve tables false FUEL "DOK" s1 = LfStub "isnan" /\ resolve tables false FUEL "DOK" s2 = LfElemwise "isnan".
+(* no spelling of any generated class reaches an abstract stub (one that returns None) any more *)
+Definition is_stub_leaf (l : leaf) : bool := match l with LfStub _ => true | _ => false end.
+
+Lemma no_spelling_reaches_a_stub_proof : forall cls op ss s,
+  In cls classes -> In (op, ss) op_classes -> In s ss -> is_stub_leaf (resolve tables false FUEL cls s) = false.
 Proof.
-  exists "isnan". eexists. exists (Method "isnan"), (Ufunc "isnan" "__call__").
-  split; [in_table|]. split; [in_list|]. split; [in_list|]. split; vm_compute; reflexivity.
+  assert (forallb (fun cls => forallb (fun os => forallb (fun s => negb (is_stub_leaf (resolve tables false FUEL cls s)))
+                                                        (snd os)) op_classes) classes = true) as H
+    by (vm_compute; reflexivity).
+  intros cls op ss s Hc Ho Hs.
+  pose proof (proj1 (forallb_forall _ _) H cls Hc) as H1.
+  pose proof (proj1 (forallb_forall _ _) H1 (op, ss) Ho) as H2.
+  pose proof (proj1 (forallb_forall _ _) H2 s Hs) as H3.
+  apply negb_true_iff. exact H3.
 Qed.
 
 Lemma spellings_coerced_refuted_proof :
